@@ -6,6 +6,9 @@ cd "$(dirname "$0")/.." || exit 2
 seed=${1:-1}; shift
 checks=${@:-C10 C16 C18 C02 C01 C03 C04 C05 C06 C07 C08 C11 C12 C13 C14 C15}
 export CARGO_NET_OFFLINE=true
+# exploratory runs while /repo is being patched by a matrix: build against a clean scratch worktree
+# of the same commit instead (never used for registered checks or committed evidence)
+if [ -n "$PBSIM_REPO" ]; then sed -i "s#path = \"/repo\"#path = \"$PBSIM_REPO\"#" sim/Cargo.toml; fi
 (cd sim && cargo build --release --offline && cargo build --profile noassert --offline) > build.log 2>&1 || { echo "build failed"; tail build.log; exit 2; }
 mkdir -p thorough-out; cp known_findings.json thorough-out/
 cp sim/target/release/pbsim thorough-out/pbsim; cp sim/target/noassert/pbsim thorough-out/pbsim-noassert
